@@ -5,6 +5,7 @@ CONSTANTS
   MaxBatch = 2
   MaxPerEpoch = 2
   Export = TRUE
+  WithOther = FALSE
 INIT MCInit
 NEXT MCNext
 VIEW View
